@@ -548,7 +548,9 @@ def _split_simple_statements(stmts):
             continue
         if isinstance(s, ast.AnnAssign) and s.value is not None and isinstance(s.target, ast.Name):
             s = ast.copy_location(ast.Assign(targets=[s.target], value=s.value), s)
-        if isinstance(s, ast.Assign) and len(s.targets) == 1 and isinstance(s.targets[0], (ast.Name, ast.Attribute)) and isinstance(s.value, ast.IfExp):
+        if isinstance(s, ast.Assign) and len(s.targets) == 1 and isinstance(s.value, ast.IfExp) and (
+                isinstance(s.targets[0], (ast.Name, ast.Attribute)) or
+                (isinstance(s.targets[0], ast.Subscript) and not any(isinstance(x, ast.Call) for x in ast.walk(s.targets[0])))):
             # `x = a if c else b`  ->  `if c: x = a  else: x = b`
             ie = s.value
             mk = lambda v: ast.copy_location(ast.Assign(targets=[copy.deepcopy(s.targets[0])], value=v), s)
